@@ -168,7 +168,10 @@ def run(ck):
     n = 4000 if quick else 60000
     pool = ['income', 'Income', 'INCOME', 'iNCOME', 'investment', 'Investment', 'INVESTMENT', 'transfer', 'TRANSFER',
             'Transfer', 'food', 'x', '', 'incomes', ' income', 'İNCOME', 'İncome', 'ıncome', 'inveſtment', 'TRANSFER ',
-            'ﬁle', 'ǅ', 'ß', 'ẞ', 'Σ', 'ς', 'K', 'İ']
+            'ﬁle', 'ǅ', 'ß', 'ẞ', 'Σ', 'ς', 'K', 'İ',
+            # ordinary tags that merely START or END with a special word (a tag is special only as a whole)
+            'income-tax', 'Transfer-Fee', 'investment.fees', 'investment property', 'wire_transfer', 'non-income', 're:investment',
+            'transfer/out', 'income tax', 'INCOME-2024']
     tcases = []
     for i in range(n):
         k = rnd.choice([0, 1, 1, 2, 3, 4])
